@@ -17,5 +17,6 @@ rc = run([sys.executable, os.path.join(ROOT, "tools", "gen_tables.py")], ROOT)
 rc |= run(["lake", "build", "EdpVerif", "edpdrv"], os.path.join(ROOT, "lean"))
 if not os.path.exists(os.path.join(ROOT, "harness", "Cargo.lock")):
     subprocess.call(["cp", "/repo/Cargo.lock", os.path.join(ROOT, "harness", "Cargo.lock")])
+env["CARGO_TARGET_DIR"] = os.path.join(ROOT, ".cache", "target")
 rc |= run(["cargo", "build", "--offline", "--bins"], os.path.join(ROOT, "harness"))
 sys.exit(1 if rc else 0)
